@@ -13,9 +13,9 @@ Import ListNotations.
 (* ================================================================================== *)
 (* small facts                                                                        *)
 (* ================================================================================== *)
-Lemma adjacentb_spec : forall t a b, adjacentb t a b = true <-> adjacent t a b.
+Lemma adjb_spec : forall t a b, adjb t a b = true <-> adjacent t a b.
 Proof.
-  intros t a b. unfold adjacentb, adjacent. rewrite existsb_exists. split.
+  intros t a b. unfold adjb, adjacent. rewrite existsb_exists. split.
   - intros [[x y] [Hin H]]. simpl in H. apply orb_true_iff in H.
     destruct H as [H|H]; apply andb_true_iff in H; destruct H as [H1 H2];
       apply Nat.eqb_eq in H1; apply Nat.eqb_eq in H2; subst; auto.
@@ -69,7 +69,7 @@ Definition durations_two (t : rtree) (tr : list ev) : Prop :=
 Lemma on_tree_edge_sound : forall t tr, forallb (on_tree_edge t) tr = true -> events_on_edges t tr.
 Proof.
   intros t tr H a b f Hin. rewrite forallb_forall in H.
-  destruct Hin as [Hin|Hin]; specialize (H _ Hin); simpl in H; apply adjacentb_spec; exact H.
+  destruct Hin as [Hin|Hin]; specialize (H _ Hin); simpl in H; apply adjb_spec; exact H.
 Qed.
 
 Lemma dur_check_one_sound : forall t tr, dur_check_one t tr = true -> durations_one t tr.
@@ -145,25 +145,25 @@ Proof.
   - destruct (Nat.eqb (centre s) n && no_pend s && env_fresh t s n None) eqn:E; [|discriminate].
     apply andb_true_iff in E. destruct E as [E E3]. apply andb_true_iff in E. destruct E as [E1 E2].
     apply Nat.eqb_eq in E1. apply no_pend_spec in E2. repeat split; auto. apply env_fresh_none; auto.
-  - destruct (Nat.eqb (centre s) a && no_pend s && adjacentb t a b) eqn:E; [|discriminate].
+  - destruct (Nat.eqb (centre s) a && no_pend s && adjb t a b) eqn:E; [|discriminate].
     apply andb_true_iff in E. destruct E as [E E3]. apply andb_true_iff in E. destruct E as [E1 E2].
-    apply Nat.eqb_eq in E1. apply no_pend_spec in E2. apply adjacentb_spec in E3. auto.
+    apply Nat.eqb_eq in E1. apply no_pend_spec in E2. apply adjb_spec in E3. auto.
   - destruct (pend s) as [[a' b']|]; [|discriminate].
     destruct (pair_eqb (a, b) (a', b') && fresh t s a b && fresh t s b a) eqn:E; [|discriminate].
     apply andb_true_iff in E. destruct E as [E E3]. apply andb_true_iff in E. destruct E as [E1 E2].
     apply pair_eqb_eq in E1. inversion E1; subst. repeat split; auto using fresh_sound.
   - destruct (pend s) as [[a' b']|]; [|discriminate].
     destruct (pair_eqb (a, b) (a', b')) eqn:E; [|discriminate]. apply pair_eqb_eq in E. inversion E; subst. reflexivity.
-  - destruct (Nat.eqb (centre s) a && no_pend s && adjacentb t a b && env_fresh t s a (Some b) && env_fresh t s b (Some a)) eqn:E; [|discriminate].
+  - destruct (Nat.eqb (centre s) a && no_pend s && adjb t a b && env_fresh t s a (Some b) && env_fresh t s b (Some a)) eqn:E; [|discriminate].
     apply andb_true_iff in E. destruct E as [E E5]. apply andb_true_iff in E. destruct E as [E E4].
     apply andb_true_iff in E. destruct E as [E E3]. apply andb_true_iff in E. destruct E as [E1 E2].
-    apply Nat.eqb_eq in E1. apply no_pend_spec in E2. apply adjacentb_spec in E3.
+    apply Nat.eqb_eq in E1. apply no_pend_spec in E2. apply adjb_spec in E3.
     repeat split; auto; apply env_fresh_but; auto.
-  - destruct (Nat.eqb (centre s) a && no_pend s && adjacentb t a b) eqn:E; [|discriminate].
+  - destruct (Nat.eqb (centre s) a && no_pend s && adjb t a b) eqn:E; [|discriminate].
     apply andb_true_iff in E. destruct E as [E E3]. apply andb_true_iff in E. destruct E as [E1 E2].
-    apply Nat.eqb_eq in E1. apply no_pend_spec in E2. apply adjacentb_spec in E3. auto.
-  - destruct (adjacentb t n m && env_fresh t s n (Some m)) eqn:E; [|discriminate].
-    apply andb_true_iff in E. destruct E as [E1 E2]. apply adjacentb_spec in E1. split; auto. apply env_fresh_but; auto.
+    apply Nat.eqb_eq in E1. apply no_pend_spec in E2. apply adjb_spec in E3. auto.
+  - destruct (adjb t n m && env_fresh t s n (Some m)) eqn:E; [|discriminate].
+    apply andb_true_iff in E. destruct E as [E1 E2]. apply adjb_spec in E1. split; auto. apply env_fresh_but; auto.
   - exact I.
   - destruct (Nat.eqb (centre s) n && no_pend s) eqn:E; [|discriminate].
     apply andb_true_iff in E. destruct E as [E1 E2]. apply Nat.eqb_eq in E1. apply no_pend_spec in E2. auto.
@@ -816,3 +816,233 @@ Section Trace2.
     unfold cntz in *. unfold node_dur. simpl in *. destruct (Nat.eqb a0 x), (Nat.eqb z x); lia.
   Qed.
 End Trace2.
+
+Lemma nth_error_defined : forall {A} (l : list A) i, i < length l -> exists a, nth_error l i = Some a.
+Proof. intros A l i H. destruct (nth_error l i) eqn:E; eauto. apply nth_error_None in E. lia. Qed.
+
+Lemma last_opt_defined : forall l, l <> [] -> exists z, last_opt l = Some z.
+Proof. intros [|a l] H; [congruence|]. simpl. eauto. Qed.
+
+Lemma opt_app_defined : forall {A} (a b : option (list A)), (exists x, a = Some x) -> (exists y, b = Some y) -> exists r, opt_app a b = Some r.
+Proof. intros A a b [x ->] [y ->]. simpl. eauto. Qed.
+
+Theorem trace2_defined : forall t, NoDup (ids t) -> 2 <= size t -> exists tr, trace2 t = Some tr.
+Proof.
+  intros t Hw Hs. destruct (update_path_facts t Hw) as [up [Hu [Nu [Hi Hl]]]].
+  destruct (orth_paths_good t up Hw Nu (fun x H => proj1 (Hi x) H)) as [op [Ho [Hlen Hg]]].
+  unfold trace2. rewrite Hu, Ho.
+  assert (Hb : exists bop, back_orth_paths t (rev up) = Some bop /\ length bop = length up - 1).
+  { unfold back_orth_paths.
+    destruct (map_opt_defined (fun s => option_map (@removelast nat) (path_from_to t (fst s) (snd s))) (consec (tl (rev up)))) as [l Hm].
+    { intros [a b] Hab. apply consec_In in Hab. destruct Hab as [i [Ha Hb]]. simpl.
+      assert (Hin : forall y, In y (tl (rev up)) -> In y (ids t)).
+      { intros y Hy. apply Hi. apply in_rev. destruct (rev up); [destruct Hy|right; exact Hy]. }
+      destruct (path_from_to_spec t a b Hw) as [p [-> _]]; [apply Hin; eapply nth_error_In; eauto|apply Hin; eapply nth_error_In; eauto|].
+      simpl. eauto. }
+    rewrite Hm. destruct (last_opt_defined (rev up)) as [z ->].
+    { intro E. apply (f_equal (@length nat)) in E. rewrite rev_length in E. simpl in E. lia. }
+    eexists. split; [reflexivity|]. rewrite app_length. destruct (map_opt_spec _ _ _ Hm) as [Hml _]. rewrite Hml, consec_length.
+    assert (length (tl (rev up)) = length up - 1) by (rewrite <- (rev_length up); destruct (rev up); simpl; lia).
+    simpl. lia. }
+  destruct Hb as [bop [-> Hbl]]. unfold trace2_of.
+  destruct (last_opt_defined up) as [z ->]. { intro E. subst up. simpl in *. lia. }
+  destruct (nth_error_defined (rev up) 1) as [b1 ->]. { rewrite rev_length. lia. }
+  destruct (last_opt_defined (rev up)) as [a ->]. { intro E. apply (f_equal (@length nat)) in E. rewrite rev_length in E. simpl in E. lia. }
+  apply opt_app_defined.
+  - apply concat_opt_map_defined. intros i Hin. apply in_seq in Hin. unfold t2_forward.
+    destruct (nth_error_defined up i) as [n Hn]; [lia|]. destruct (nth_error_defined up (S i)) as [b Hb]; [lia|].
+    destruct (Hg i n b Hn Hb) as [nx [q [_ [Hq _]]]]. rewrite Hn, Hq.
+    destruct (Nat.eqb i 0) eqn:E0; [eauto|]. apply Nat.eqb_neq in E0.
+    destruct (nth_error_defined op (i - 1)) as [p ->]; [lia|]. eauto.
+  - apply opt_app_defined; [eauto|]. apply opt_app_defined; [|eauto].
+    apply concat_opt_map_defined. intros i Hin. apply in_seq in Hin. unfold t2_backward.
+    destruct (nth_error_defined (rev up) i) as [n ->]; [rewrite rev_length; lia|].
+    destruct (nth_error_defined bop (i - 1)) as [p ->]; [lia|].
+    destruct (nth_error_defined (rev up) (i + 1)) as [nx ->]; [rewrite rev_length; lia|]. eauto.
+Qed.
+
+(* ================================================================================== *)
+(* second-order two-site                                                              *)
+(* ================================================================================== *)
+Lemma t2s_forward_inv : forall up op i es, t2s_forward up op i = Some es ->
+  exists n p nx q, nth_error up i = Some n /\ nth_error op i = Some (nx :: q) /\
+    es = moves p ++ [AssertCentre n] ++ two n nx 1%Z ++ [SiteBack nx 1%Z].
+Proof.
+  intros up op i es H. unfold t2s_forward in H. destruct (nth_error up i) as [n|]; [|discriminate].
+  destruct (if Nat.eqb i 0 then Some [] else nth_error op (i - 1)) as [p|]; [|discriminate].
+  destruct (nth_error op i) as [[|nx q]|]; try discriminate. inversion H. exists n, p, nx, q. auto.
+Qed.
+
+Lemma t2s_backward_inv : forall bup bop i es, t2s_backward bup bop i = Some es ->
+  exists p nx tg, nth_error bop i = Some p /\ nth_error bup (i + 1) = Some nx /\ last_opt p = Some tg /\
+    es = moves p ++ [SiteBack tg 1%Z] ++ two tg nx 1%Z.
+Proof.
+  intros bup bop i es H. unfold t2s_backward in H. destruct (nth_error bop i) as [p|]; [|discriminate].
+  destruct (nth_error bup (i + 1)) as [nx|]; [|discriminate]. destruct (last_opt p) as [tg|] eqn:El; [|discriminate].
+  inversion H. exists p, nx, tg. auto.
+Qed.
+
+Lemma trace2s_of_inv : forall up op tr, trace2s_of up op = Some tr ->
+  exists y z fw bw, nth_error (rev up) 1 = Some y /\ nth_error (rev up) 0 = Some z /\
+    concat_opt (map (t2s_forward up op) (seq 0 (length up - 2))) = Some fw /\
+    concat_opt (map (t2s_backward (rev up) (back_orth_paths2 op)) (seq 1 (length up - 2))) = Some bw /\
+    tr = fw ++ (two y z 1%Z ++ two z y 1%Z) ++ bw.
+Proof.
+  intros up op tr H. unfold trace2s_of in H. destruct (nth_error (rev up) 1) as [y|]; [|discriminate].
+  destruct (nth_error (rev up) 0) as [z|]; [|discriminate].
+  apply opt_app_Some in H. destruct H as [fw [r1 [Hfw [H ->]]]].
+  apply opt_app_Some in H. destruct H as [m [bw [Hm [Hbw ->]]]]. inversion Hm; subst m.
+  exists y, z, fw, bw. repeat split; auto.
+Qed.
+
+Theorem trace2s_total_duration : forall t tr, trace2s t = Some tr -> total_dur tr = 2%Z.
+Proof.
+  intros t tr H. unfold trace2s in H. destruct (update_path t) as [up|]; [|discriminate].
+  destruct (orth_paths t up) as [op|]; [|discriminate].
+  destruct (trace2s_of_inv _ _ _ H) as [y [z [fw [bw [_ [_ [Hfw [Hbw ->]]]]]]]].
+  rewrite !total_dur_app.
+  rewrite (concat_opt_map_sum total_dur total_dur_app eq_refl _ (fun _ => 0%Z) _ _ Hfw).
+  2:{ intros i es _ Hes. destruct (t2s_forward_inv _ _ _ _ Hes) as [n [p [nx [q [_ [_ ->]]]]]].
+      rewrite !total_dur_app. destruct (moves_durs p) as [_ [_ M]]. rewrite M. unfold total_dur. simpl. lia. }
+  rewrite (concat_opt_map_sum total_dur total_dur_app eq_refl _ (fun _ => 0%Z) _ _ Hbw).
+  2:{ intros i es _ Hes. destruct (t2s_backward_inv _ _ _ _ Hes) as [p [nx [tg [_ [_ [_ ->]]]]]].
+      rewrite !total_dur_app. destruct (moves_durs p) as [_ [_ M]]. rewrite M. unfold total_dur. simpl. lia. }
+  assert (Z0 : forall l, zsum (map (fun _ : nat => 0%Z) l) = 0%Z) by (induction l; simpl; auto).
+  rewrite !Z0. unfold total_dur. simpl. lia.
+Qed.
+
+Theorem trace2s_defined : forall t, NoDup (ids t) -> 2 <= size t -> exists tr, trace2s t = Some tr.
+Proof.
+  intros t Hw Hs. destruct (update_path_facts t Hw) as [up [Hu [Nu [Hi Hl]]]].
+  destruct (orth_paths_good t up Hw Nu (fun x H => proj1 (Hi x) H)) as [op [Ho [Hlen Hg]]].
+  unfold trace2s. rewrite Hu, Ho. unfold trace2s_of.
+  destruct (nth_error_defined (rev up) 1) as [y ->]. { rewrite rev_length. lia. }
+  destruct (nth_error_defined (rev up) 0) as [z ->]. { rewrite rev_length. lia. }
+  apply opt_app_defined.
+  - apply concat_opt_map_defined. intros i Hin. apply in_seq in Hin. unfold t2s_forward.
+    destruct (nth_error_defined up i) as [n Hn]; [lia|]. destruct (nth_error_defined up (S i)) as [b Hb]; [lia|].
+    destruct (Hg i n b Hn Hb) as [nx [q [_ [Hq _]]]]. rewrite Hn, Hq.
+    destruct (Nat.eqb i 0) eqn:E0; [eauto|]. apply Nat.eqb_neq in E0.
+    destruct (nth_error_defined op (i - 1)) as [p ->]; [lia|]. eauto.
+  - apply opt_app_defined; [eauto|].
+    apply concat_opt_map_defined. intros i Hin. apply in_seq in Hin. unfold t2s_backward, back_orth_paths2.
+    assert (Hbl : length (map (@rev nat) (rev op)) = length up - 1) by (rewrite map_length, rev_length; exact Hlen).
+    destruct (nth_error_defined (map (@rev nat) (rev op)) i) as [p Hp]; [lia|]. rewrite Hp.
+    destruct (nth_error_defined (rev up) (i + 1)) as [nx ->]; [rewrite rev_length; lia|].
+    (* every backward path is the reversal of a non-empty forward path *)
+    assert (Hne : p <> []).
+    { apply nth_error_In in Hp. apply in_map_iff in Hp. destruct Hp as [o [<- Ho']]. apply in_rev in Ho'.
+      apply In_nth_error in Ho'. destruct Ho' as [k Hk].
+      assert (Hkl : k < length op) by (apply nth_error_Some; congruence).
+      destruct (nth_error_defined up k) as [a Ha]; [lia|]. destruct (nth_error_defined up (S k)) as [b Hb]; [lia|].
+      destruct (Hg k a b Ha Hb) as [nx' [q [_ [Hq _]]]]. rewrite Hk in Hq. inversion Hq; subst o.
+      intro E. apply (f_equal (@length nat)) in E. rewrite rev_length in E. simpl in E. lia. }
+    destruct (last_opt_defined p Hne) as [tg ->]. eauto.
+Qed.
+
+(* ================================================================================== *)
+(* Part 3: Layer A — the algebra of one local update                                  *)
+(* ================================================================================== *)
+(* Matrices of all shapes with product, adjoint and identities; the hypotheses are laws of
+   matrix algebra (associativity, units, (xy)^+ = y^+ x^+, x^++ = x), nothing about the code.
+   E : the embedding of the local tensor (D x N), H : the full operator, A : the local tensor
+   as a column, U : the local propagator. *)
+Section LayerA.
+  Variable M : nat -> nat -> Type.
+  Variable mul : forall {a b c : nat}, M a b -> M b c -> M a c.
+  Variable adj : forall {a b : nat}, M a b -> M b a.
+  Variable one : forall n : nat, M n n.
+  Hypothesis mul_assoc : forall a b c d (x : M a b) (y : M b c) (z : M c d), mul x (mul y z) = mul (mul x y) z.
+  Hypothesis mul_1_l : forall a b (x : M a b), mul (one a) x = x.
+  Hypothesis adj_mul : forall a b c (x : M a b) (y : M b c), adj (mul x y) = mul (adj y) (adj x).
+  Hypothesis adj_adj : forall a b (x : M a b), adj (adj x) = x.
+
+  Variables D N : nat.
+  Variable E : M D N.
+  Variable H : M D D.
+  Hypothesis E_isometry : mul (adj E) E = one N.
+  Hypothesis H_hermitian : adj H = H.
+
+  Definition Keff : M N N := mul (adj E) (mul H E).
+
+  (* the projected Hamiltonian is Hermitian *)
+  Lemma Keff_hermitian : adj Keff = Keff.
+  Proof. unfold Keff. rewrite !adj_mul, adj_adj, H_hermitian, mul_assoc. reflexivity. Qed.
+
+  (* norm and energy of the embedded state are those of the local tensor *)
+  Lemma embed_norm : forall A : M N 1, mul (adj (mul E A)) (mul E A) = mul (adj A) A.
+  Proof.
+    intros A. rewrite adj_mul. rewrite <- (mul_assoc _ _ _ _ (adj A) (adj E) (mul E A)).
+    rewrite (mul_assoc _ _ _ _ (adj E) E A), E_isometry, mul_1_l. reflexivity.
+  Qed.
+
+  Lemma embed_energy : forall A : M N 1, mul (adj (mul E A)) (mul H (mul E A)) = mul (adj A) (mul Keff A).
+  Proof.
+    intros A. unfold Keff. rewrite adj_mul. rewrite <- (mul_assoc _ _ _ _ (adj A) (adj E) (mul H (mul E A))).
+    f_equal. rewrite (mul_assoc _ _ _ _ H E A). rewrite (mul_assoc _ _ _ _ (adj E) (mul H E) A). reflexivity.
+  Qed.
+
+  (* a unitary that commutes with K preserves <A|A> and <A|K|A> *)
+  Variable U : M N N.
+  Hypothesis U_unitary : mul (adj U) U = one N.
+  Hypothesis U_commutes : mul U Keff = mul Keff U.
+
+  Lemma local_norm_conserved : forall A : M N 1, mul (adj (mul U A)) (mul U A) = mul (adj A) A.
+  Proof.
+    intros A. rewrite adj_mul. rewrite <- (mul_assoc _ _ _ _ (adj A) (adj U) (mul U A)).
+    rewrite (mul_assoc _ _ _ _ (adj U) U A), U_unitary, mul_1_l. reflexivity.
+  Qed.
+
+  Lemma local_energy_conserved : forall A : M N 1,
+    mul (adj (mul U A)) (mul Keff (mul U A)) = mul (adj A) (mul Keff A).
+  Proof.
+    intros A. rewrite adj_mul. rewrite <- (mul_assoc _ _ _ _ (adj A) (adj U) (mul Keff (mul U A))). f_equal.
+    rewrite (mul_assoc _ _ _ _ Keff U A), <- U_commutes, <- (mul_assoc _ _ _ _ U Keff A).
+    rewrite (mul_assoc _ _ _ _ (adj U) U (mul Keff A)), U_unitary, mul_1_l. reflexivity.
+  Qed.
+
+  (* the full state E(UA) has the norm and the energy of E A *)
+  Theorem local_update_conserves : forall A : M N 1,
+    mul (adj (mul E (mul U A))) (mul E (mul U A)) = mul (adj (mul E A)) (mul E A) /\
+    mul (adj (mul E (mul U A))) (mul H (mul E (mul U A))) = mul (adj (mul E A)) (mul H (mul E A)).
+  Proof.
+    intros A. rewrite !embed_norm, !embed_energy, local_norm_conserved, local_energy_conserved. auto.
+  Qed.
+End LayerA.
+
+(* for E = 1 (two-node tree, two-site update: the pair IS the whole state) K = H *)
+Lemma Keff_identity_embedding : forall (M : nat -> nat -> Type)
+    (mul : forall a b c : nat, M a b -> M b c -> M a c) (adj : forall a b : nat, M a b -> M b a) (one : forall n, M n n),
+  (forall a b (x : M a b), mul a a b (one a) x = x) ->
+  (forall a b (x : M a b), mul a b b x (one b) = x) ->
+  (forall n, adj n n (one n) = one n) ->
+  forall D (H : M D D), Keff M mul adj D D (one D) H = H.
+Proof. intros M mul adj one L R A D H. unfold Keff. rewrite A, R, L. reflexivity. Qed.
+
+(* ---- the structural assertions of the first-order class never fail -------------------- *)
+Theorem trace1_asserts : forall t t' tr, NoDup (ids t) -> trace1_gen t t' = Some tr ->
+  (forall n, In (AssertLeaf n) tr -> is_leaf t n = true) /\
+  (forall n, In (AssertEnd n) tr -> degree t n <= 1).
+Proof.
+  intros t t' tr Hw H. split; intros n Hn; exact (trace1_events t t' tr Hw H _ Hn).
+Qed.
+
+Theorem trace1_links_on_edges : forall t t' tr, NoDup (ids t) -> trace1_gen t t' = Some tr ->
+  forall a b f, In (Link a b f) tr -> adjacent t a b /\ f = 2%Z.
+Proof. intros t t' tr Hw H a b f Hin. exact (trace1_events t t' tr Hw H _ Hin). Qed.
+
+(* ---- two nodes: the two-site step is two half steps on the only edge, nothing else ----- *)
+Lemma trace2s_two_nodes : forall a b, a <> b ->
+  trace2s (RNode a [RNode b []]) = Some [TwoSite b a 1%Z; Cache b a; TwoSite a b 1%Z; Cache a b].
+Proof.
+  intros a b Hne. assert (Eab : Nat.eqb a b = false) by (apply Nat.eqb_neq; auto).
+  assert (Eba : Nat.eqb b a = false) by (apply Nat.eqb_neq; auto).
+  unfold trace2s, update_path, main_path, start_node. cbn. rewrite ?Eab, ?Eba, ?Nat.eqb_refl. cbn.
+  unfold path_to_root. cbn. rewrite ?Eab, ?Eba, ?Nat.eqb_refl. cbn. rewrite ?Eab, ?Eba, ?Nat.eqb_refl. cbn.
+  unfold path_for_branch. cbn. rewrite ?Eab, ?Eba, ?Nat.eqb_refl. cbn. rewrite ?Eab, ?Eba, ?Nat.eqb_refl. cbn.
+  unfold update_step. cbn. rewrite ?Eab, ?Eba, ?Nat.eqb_refl. cbn. unfold path_down_from_root. cbn.
+  unfold orth_paths. cbn. unfold path_from_to. rewrite ?Eab, ?Eba, ?Nat.eqb_refl. unfold path_to_root. cbn.
+  rewrite ?Eab, ?Eba, ?Nat.eqb_refl. cbn.
+  unfold merge_root_paths, num_duplicates, count. cbn. rewrite ?Eab, ?Eba, ?Nat.eqb_refl. cbn.
+  reflexivity.
+Qed.
